@@ -3,10 +3,21 @@
 #[macro_use]
 pub mod inp;
 pub mod util;
+pub mod hists;
+pub mod c06;
+pub mod c07;
+pub mod c12;
+pub mod c13;
 pub mod c14;
+pub mod c15;
 
 pub fn registry() -> Vec<(&'static str, &'static [(&'static str, fn(&mut inp::VecInp))])> {
     vec![
+        ("c06", c06::HARNESSES),
+        ("c07", c07::HARNESSES),
+        ("c12", c12::HARNESSES),
+        ("c13", c13::HARNESSES),
         ("c14", c14::HARNESSES),
+        ("c15", c15::HARNESSES),
     ]
 }
